@@ -96,8 +96,27 @@ def cells(tier, seed):
         else:
             out.append({'dim': 2, 'wave': w, 'mode': rnd.choice(refs.MODES), 'J': rnd.choice([1, 2]),
                         'shape': [rnd.choice([6, 9, 12]), rnd.choice([7, 10])], 'N': N, 'C': C})
+    # user-defined filter banks (a custom pywt.Wavelet / a pair of arrays): "every wavelet" includes taps that
+    # have none of the structure of the named families (no Haar shape, no orthogonality, no symmetry)
+    import math
+    for i in range(10 if tier == 'quick' else 200):
+        L = rnd.choice([2, 2, 4, 6])
+        if L == 2 and rnd.random() < 0.6:
+            t = rnd.uniform(0.1, 1.4)
+            lo, hi = ([math.cos(t), math.sin(t)], [math.sin(t), -math.cos(t)]) if rnd.random() < 0.7 else ([1.0, 0.0], [0.0, 1.0])
+            bank = [lo, hi, lo[::-1], hi[::-1]]
+        else:
+            bank = [[round(rnd.gauss(0, 1), 6) for _ in range(L)] for _ in range(4)]
+        if rnd.random() < 0.5:
+            out.append({'dim': 1, 'wave': bank, 'mode': rnd.choice(refs.MODES), 'J': rnd.choice([1, 2, 3]),
+                        'shape': [rnd.choice([5, 8, 9, 16, 21])], 'N': rnd.choice([1, 2]), 'C': rnd.choice([1, 2, 3]), 'custom': True})
+        else:
+            out.append({'dim': 2, 'wave': bank, 'mode': rnd.choice(refs.MODES), 'J': rnd.choice([1, 2]),
+                        'shape': [rnd.choice([6, 9, 12]), rnd.choice([7, 10])], 'N': rnd.choice([1, 2]), 'C': rnd.choice([1, 2]), 'custom': True})
     short = [w for w in waves if refs.flen(w) <= 20]
     for c in out:
+        if c.get('custom'):
+            continue
         if c['mode'] == 'periodization' and rnd.random() < 0.2:
             c['spelling'] = 'per'
         if c['dim'] == 2 and rnd.random() < 0.12:
@@ -118,10 +137,12 @@ def wave_arg(cell, synthesis):
         import hashlib
         h = int(hashlib.sha256(repr(sorted((k, str(v)) for k, v in cell.items())).encode()).hexdigest()[:6], 16) % 10
         form = {0: 'object', 1: 'object', 2: 'pair of lists', 3: 'pair of arrays'}.get(h, 'name')
+        if not isinstance(cell['wave'], str):
+            form = 'object' if h % 2 else 'pair of arrays'        # a user-defined bank has no name
         WAVE_FORMS[form] = WAVE_FORMS.get(form, 0) + 1
         if form == 'name':
             return cell['wave']
-        w = pywt.Wavelet(cell['wave'])
+        w = refs.wavelet(cell['wave'])
         if form == 'object':
             return w
         lo, hi = (w.rec_lo, w.rec_hi) if synthesis else (w.dec_lo, w.dec_hi)
@@ -250,6 +271,8 @@ _SAME = {}
 
 
 def same_length_other(wave):
+    if not isinstance(wave, str):
+        return None
     if not _SAME:
         for w in refs.all_wavelets():
             _SAME.setdefault(refs.flen(w), []).append(w)
@@ -292,7 +315,7 @@ def extra_cov(results, meta):
         c = r['case'].get('cell')
         if not c or r['monitor'] != 'M-REF':
             continue
-        waves.add(c['wave'])
+        waves.add(c['wave'] if isinstance(c['wave'], str) else 'user-defined bank of %d taps' % len(c['wave'][0]))
         modes.add(c['mode'])
         L = refs.flen(c['wave'])
         k = '%dd/%s/%s/%s' % (c['dim'], c['mode'], 'short' if min(c['shape']) < L else 'long',
